@@ -12,7 +12,9 @@
 #include <sys/wait.h>
 #include <fcntl.h>
 #include <unistd.h>
+#include <algorithm>
 #include <csignal>
+#include <ctime>
 #include <cstdio>
 #include <cstring>
 #include <functional>
